@@ -613,7 +613,7 @@ def feature_vector_orbits(
 
     if len(list_of_orbits) <= 0:
         raise ValueError("List of orbits must have at least one orbit")
-    if any(min(elem) < 0 for elem in list_of_orbits):
+    if any(min(elem) < 0 for elem in list_of_orbits if elem):
         raise ValueError("Cannot request orbits with photon number below zero")
     if n_mean < 0:
         raise ValueError("Mean photon number must be non-negative")
@@ -714,7 +714,7 @@ def feature_vector_orbits_sampling(samples: list, list_of_orbits: list) -> list:
     """
     if len(list_of_orbits) <= 0:
         raise ValueError("List of orbits must have at least one orbit")
-    if any(min(elem) < 0 for elem in list_of_orbits):
+    if any(min(elem) < 0 for elem in list_of_orbits if elem):
         raise ValueError("Cannot request orbits with photon number below zero")
 
     n_samples = len(samples)
